@@ -121,6 +121,14 @@ func verFamName(ver string) string {
 	return "php7"
 }
 
+var c06Lexical = []string{
+	"<?php $a = 09; $b = 0778 + 08_1; f(019, 1_000, 0x1F, 0b11, 1e3, .5, 9223372036854775808);",
+	"<?php $s = \"\\u{1F600} \\u{} \\u{110000} \\u{1z} \\x41 \\101 \\400 \\n $a {$b} ${c} \\u{1F60\";",
+	"<?php $h = <<<A\n\\u{1F600} \\u{12\nA;\n$n = <<<'B'\n\\u{zz}\nB;\n`\\u{1F60`;",
+	"<?php \x01 $a \x7f = \x00 1; /* c */ // d\n# e\n/** f */ (int) $a; (  string  ) $b; $c->list; A::class;",
+	"<?php echo 'a\\'b', \"x\\\"y\", b\"z\", <<<\"Q\"\n$v[0] $v[k] $v[-1] $v->p\nQ;\n?>html<?= $x ?>\n<?php __halt_compiler();data",
+}
+
 // firstWord: the leading identifier (lower-cased) or the leading byte of a source span.
 func firstWord(b []byte) string {
 	n := 0
@@ -322,6 +330,19 @@ func c06Run(c *core.Ctx) {
 		for _, v := range []*version.Version{drive.V56, drive.V74} {
 			if c.Next() {
 				c06One(c, mkCase(src, v, "program with a semantic (grammar-action) error"))
+			}
+		}
+	}
+	// problems the scanner itself reports (stray bytes, invalid numeric literals, whatever a scanner may come to report about
+	// escape sequences): lexically rich programs and every byte-prefix of them — shape and order of the errors, and the same
+	// tree with and without callback
+	for _, src := range c06Lexical {
+		for n := 1; n <= len(src); n++ {
+			for _, v := range []*version.Version{drive.V74, drive.V56, nil} {
+				if c.Next() {
+					c.Stat("prefixes_of_lexically_rich_programs", 1)
+					c06One(c, mkCase(src[:n], v, "byte-prefix of a lexically rich program"))
+				}
 			}
 		}
 	}
